@@ -1,4 +1,4 @@
-import PsV.Model.Fit
+import PsV.Model.FitGlam
 import PsV.Driver.C17
 /-!
 Driver for C09 (unconstrained penalised fit).  Stateful: an `F` line sets the current problem, `C` lines judge
